@@ -383,6 +383,8 @@ func C01(c *Ctx) {
 	compactionKeepsAllGroup(c, r5)
 	const r7 = "K2.table-cut-at-key-boundary"
 	tableCutGroup(c, r7)
+	seekGapGroup(c, "K2.seek-continues-into-next-block")
+	levelDisjointGroup(c, "K2.level-tables-disjoint")
 	const r6 = "K2.delete-and-expiry-semantics"
 	deleteSemanticsGroup(c, r6)
 	const r2 = "K12.sentinel-version"
@@ -461,6 +463,8 @@ func C02(c *Ctx) {
 
 	const r4 = "K2.table-cut-at-key-boundary"
 	tableCutGroup(c, r4)
+	seekGapGroup(c, "K2.seek-continues-into-next-block")
+	levelDisjointGroup(c, "K2.level-tables-disjoint")
 	const r5 = "K1.compaction-keeps-every-entry"
 	compactionKeepsAllGroup(c, r5)
 	const r2 = "K8.search-accepts-only-same-key"
